@@ -67,6 +67,7 @@ def phys_of_logical(a):
 
 
 def init_interp(I):
+    I.use_uf_div = False
     I.crc_k = z3.BitVec("crc_K", 64)
     I.crc_calls = []
     I.alloc_events = []
